@@ -52,7 +52,7 @@ func (g *c19Gen) stmt(indent int, s string) int {
 func (g *c19Gen) block(indent int, n int, inFunc bool) {
 	for i := 0; i < n && g.budget > 0; i++ {
 		g.budget--
-		k := g.tape.Choose(31)
+		k := g.tape.Choose(32)
 		if g.depth >= 2 && (k == 1 || k == 2 || k == 3 || (k >= 14 && k <= 22)) {
 			k = 0
 		}
@@ -248,6 +248,9 @@ func (g *c19Gen) block(indent int, n int, inFunc bool) {
 			// marker: the marker would be the first node); the caller recovers and
 			// its result depends on the panic value
 			g.stmt(indent, fmt.Sprintf("x = loopg(x, %d)", g.tape.Choose(3)))
+		case 31:
+			// a statement spanning several lines, with a function literal inside
+			g.stmt(indent, "x = ml(x % 100)")
 		case 30:
 			// a closure created by an earlier evaluation of the session
 			g.stmt(indent, "x = pre(x % 50)")
@@ -285,6 +288,12 @@ type C19Prog struct {
 	TailLast   int // last marked line of the tail
 	WorkerEntry int // line of the first statement of the goroutine's function (unmarked)
 	GoLine      int // line of the go statement
+	// MLHead: first line of a statement spanning several lines whose nested
+	// function literal has marked lines of its own (`r := mlapply(n, func...{`).
+	// It carries no marker (the marker would be the first node of the line): its
+	// breakpoint sits on the assignment, which executes right after the marked
+	// line MLRet (the literal's return statement).
+	MLHead, MLRet int
 }
 
 // GenC19 draws a sequential marker program: every statement is written as
@@ -401,6 +410,17 @@ func GenC19(tape *Tape) *C19Prog {
 	g.stmt(1, "return x + 1")
 	g.raw("}")
 	g.raw("")
+	g.raw("func mlapply(n int, f func(int) int) int { return f(n) }")
+	g.raw("")
+	g.raw("func ml(x int) int {")
+	mlHead := g.line + 1
+	g.raw("\tr := mlapply(x%7, func(v int) int {")
+	g.stmt(2, "w := v * 2")
+	mlRet := g.stmt(2, "return w + 1")
+	g.raw("\t})")
+	g.stmt(1, "return r + x")
+	g.raw("}")
+	g.raw("")
 	g.raw("func rec(n int) int {")
 	g.fline["rec"] = g.stmt(1, "if n <= 0 {")
 	g.stmt(2, "return 1")
@@ -513,7 +533,7 @@ func GenC19(tape *Tape) *C19Prog {
 	if hasTail {
 		funcs = append(funcs, "tail")
 	}
-	return &C19Prog{Src: g.b.String(), Marks: g.marks, FLine: g.fline, Funcs: funcs, Tail: tail, WorkerLine: g.fline["worker"], TailLast: tailLast, WorkerEntry: workerEntry, GoLine: goLine}
+	return &C19Prog{Src: g.b.String(), Marks: g.marks, FLine: g.fline, Funcs: funcs, Tail: tail, WorkerLine: g.fline["worker"], TailLast: tailLast, WorkerEntry: workerEntry, GoLine: goLine, MLHead: mlHead, MLRet: mlRet}
 }
 
 type c19Result struct {
@@ -779,7 +799,7 @@ func RunC19(t *testing.T, tape *Tape) *Outcome {
 	var funcBP []string
 	lines := []int{}
 	if prog != nil {
-		lines = prog.Marks
+		lines = append(append(lines, prog.Marks...), prog.MLHead)
 	} else {
 		nl := strings.Count(src, "\n")
 		for l := 1; l <= nl; l++ {
@@ -934,6 +954,7 @@ func RunC19(t *testing.T, tape *Tape) *Outcome {
 	inSetBP := false
 	var validLines2 map[int]bool
 	var validFuncs2 map[string]int
+	var rejected []int // requested lines of a generated program (each has a statement) reported not valid
 	ticksAtSwitch := -1
 	breaksSeen := 0
 	var events2 []c19Event
@@ -1036,6 +1057,9 @@ func RunC19(t *testing.T, tape *Tape) *Outcome {
 				validLines, validFuncs = map[int]bool{}, map[string]int{}
 				for i, bp := range bps {
 					if !bp.Valid {
+						if prog != nil && i < len(lineBP) {
+							rejected = append(rejected, lineBP[i])
+						}
 						continue
 					}
 					if i < len(lineBP) {
@@ -1065,6 +1089,9 @@ func RunC19(t *testing.T, tape *Tape) *Outcome {
 				validLines2, validFuncs2 = map[int]bool{}, map[string]int{}
 				for i, bp := range bps {
 					if !bp.Valid {
+						if prog != nil && i < len(lineBP2) {
+							rejected = append(rejected, lineBP2[i])
+						}
 						continue
 					}
 					if i < len(lineBP2) {
@@ -1363,9 +1390,13 @@ func RunC19(t *testing.T, tape *Tape) *Outcome {
 			for _, l := range validFuncs {
 				fl[l] = true
 			}
-			for _, l := range ticks {
+			for i, l := range ticks {
 				if validLines[l] || fl[l] {
 					want = append(want, l)
+				}
+				// (whether the statement after the last marker executed is unknown)
+				if l == prog.MLRet && validLines[prog.MLHead] && i < len(ticks)-1 {
+					want = append(want, prog.MLHead)
 				}
 			}
 			for _, e := range events {
@@ -1389,6 +1420,9 @@ func RunC19(t *testing.T, tape *Tape) *Outcome {
 			o.addV("C19", "terminate", "terminate-event-count prog="+kind+" after=Terminate", "%s: %d terminate events, last event %v", o.Desc, nterm, events[len(events)-1].reason)
 		}
 		return o
+	}
+	if len(rejected) > 0 {
+		o.addV("C19", "breakpoints", "breakpoint-request-rejected", "%s: line breakpoints on lines %v, each of which holds a statement, were reported not valid by SetBreakpoints", o.Desc, clipInts(rejected))
 	}
 	// (1) output, result, error
 	out1, evs1 := out.String(), sink.Events()
@@ -1435,6 +1469,17 @@ func RunC19(t *testing.T, tape *Tape) *Outcome {
 				}
 			} else if validLines2[l] || fline2[l] {
 				want = append(want, l)
+			}
+			// the head of the multi-line statement executes (its assignment) between
+			// the marker of the literal's return and the next marker
+			if l == prog.MLRet {
+				if ticksAtSwitch < 0 || i < ticksAtSwitch {
+					if validLines[prog.MLHead] {
+						want = append(want, prog.MLHead)
+					}
+				} else if validLines2[prog.MLHead] {
+					want = append(want, prog.MLHead)
+				}
 			}
 		}
 		if ticksAtSwitch >= 0 {
@@ -1543,6 +1588,9 @@ func RunC19(t *testing.T, tape *Tape) *Outcome {
 			if valid2Lines[l] && funcs2[l] {
 				// function entry and first statement are two breakpoints
 				want2 = append(want2, l)
+			}
+			if l == prog.MLRet && valid2Lines[prog.MLHead] {
+				want2 = append(want2, prog.MLHead)
 			}
 		}
 		nterm2 := 0
